@@ -73,7 +73,7 @@ type c08In struct {
 	PerSender int   `json:"per,omitempty"`
 	MaxLen    int   `json:"maxlen,omitempty"`
 	Seed      int64 `json:"seed,omitempty"`
-	FailFrom int `json:"failfrom,omitempty"` // wsfault: every socket write fails from this op on
+	FailFrom  int   `json:"failfrom,omitempty"` // wsfault: every socket write fails from this op on
 	// filled by Run: the sender index of every element on the wire, in wire order
 	// (the schedule the run exhibited; handed to the model's LTS runner)
 	Sched []int `json:"sched,omitempty"`
@@ -650,7 +650,7 @@ func (s *c08Sink) size() int {
 const c08ServerHeader = "<?xml version='1.0'?><stream:stream id='x' xmlns='jabber:client' xmlns:stream='http://etherx.jabber.org/streams' version='1.0'>"
 
 func c08TCPSink() (*c08Sink, error) {
-	ln, err := net.Listen("tcp", "127.0.0.1:0")
+	ln, err := listenLoopback()
 	if err != nil {
 		return nil, err
 	}
@@ -691,7 +691,7 @@ func c08TCPSink() (*c08Sink, error) {
 }
 
 func c08WSSink() (*c08Sink, error) {
-	ln, err := net.Listen("tcp", "127.0.0.1:0")
+	ln, err := listenLoopback()
 	if err != nil {
 		return nil, err
 	}
